@@ -532,8 +532,18 @@ def gen_host(rng, size: int, with_funcs: bool, with_cond: bool, extra_inits: lis
         opsets.append(helper.make_opsetid("local", 1))
         fhg = HostGen(rng, False, False)
         fhg.k = 1000
-        fn, _ = fhg.nodes(["a"], rng.randint(1, 4), 0)
-        funcs.append(helper.make_function("local", "f", ["a"], [fn[-1].output[0]], fn, [helper.make_opsetid("", 18)]))
+        with_aux = rng.random() < 0.4
+        if with_aux:
+            # `f` calls into a domain the main graph does not import
+            fn, _ = fhg.nodes(["a", "h0"], rng.randint(1, 4), 0)
+            fn = [fhg.node("h", ["a"], ["h0"], domain="aux")] + fn
+            fops = [helper.make_opsetid("", 18), helper.make_opsetid("aux", 1)]
+        else:
+            fn, _ = fhg.nodes(["a"], rng.randint(1, 4), 0)
+            fops = [helper.make_opsetid("", 18)]
+        funcs.append(helper.make_function("local", "f", ["a"], [fn[-1].output[0]], fn, fops))
+        if with_aux:
+            funcs.append(helper.make_function("aux", "h", ["a"], ["hb"], [helper.make_node("Abs", ["a"], ["hb"])], [helper.make_opsetid("", 18)]))
         tn, tav = fhg.nodes(["a"], rng.randint(2, 4), 0)
         funcs.append(
             helper.make_function("local", "Two", ["a"], [tn[-1].output[0], tn[-2].output[0]], tn, [helper.make_opsetid("", 18)])
